@@ -157,8 +157,11 @@ def satisfies(v, mode, o):
         return False
     if exc in v.allowed and not calls:
         return True
-    if v.framing_ok and mode != 'off' and calls == [v.text]:
-        # only the signed body is not a Manifest: verifying before parsing is legitimate too
+    if v.block_text is not None and mode != 'off' and calls == [v.block_text]:
+        # the signed block is well-formed in itself and only its body is not a Manifest and / or there is
+        # content outside it: handing exactly that block to verification before (or while) rejecting the
+        # document is within the statement ("exactly the text from the BEGIN line through the END line
+        # is what is handed to verification"), and so is failing on the refused signature first
         return exc in v.allowed or (mode == 'raise' and exc == 'OpenPGPVerificationFailure')
     return False
 
@@ -191,7 +194,7 @@ def diagnose(v, mode, o):
     return 'wrong_rejection_class'
 
 
-def judge_doc(A, seq, final_nl, observations):
+def judge_doc(A, seq, final_nl, observations, part='A'):
     """observations: {mode: o}.  -> (refkind, dc_reason|None, verdicts, violations[(mode, sig, msg)])"""
     verdicts, dc = ref.readings(A, seq, final_nl)
     v0 = verdicts[0]
@@ -207,7 +210,7 @@ def judge_doc(A, seq, final_nl, observations):
                 break
         check = diagnose(pick, mode, o)
         got = 'ret' if o[0] is None else 'exc:' + o[0]
-        sig = {'part': 'A', 'check': check, 'mode': mode, 'got': got,
+        sig = {'part': part, 'check': check, 'mode': mode, 'got': got,
                'ref': pick.kind if pick.kind != 'INV' else 'INV:' + '+'.join(sorted(pick.allowed)),
                'defects': ','.join(sorted(set(pick.defects))), 'arguable': bool(dc)}
         if o[5] is not None:
@@ -219,7 +222,7 @@ def judge_doc(A, seq, final_nl, observations):
     return v0, dc, verdicts, viols
 
 
-def run_doc(A, seq, final_nl, stats, loc, seed):
+def run_doc(A, seq, final_nl, stats, loc, seed, part='A'):
     lines = [A.lines_nl[c] for c in seq]
     text = ''.join(lines)
     if not final_nl:
@@ -235,7 +238,7 @@ def run_doc(A, seq, final_nl, stats, loc, seed):
         obs[mode] = load_observe(f, mode)
         pos = f.tell()
         stats.transitions += text.count('\n', 0, pos) + (1 if (pos == len(text) and text and not text.endswith('\n')) else 0)
-    v0, dc, verdicts, viols = judge_doc(A, seq, final_nl, obs)
+    v0, dc, verdicts, viols = judge_doc(A, seq, final_nl, obs, part)
 
     # bookkeeping
     stats.evaluations += 3
@@ -250,7 +253,7 @@ def run_doc(A, seq, final_nl, stats, loc, seed):
             loc['nontrivial'] += 1
     for mode in MODES:
         o = obs[mode]
-        stats.outcomes[f'A:{refkind}/{mode}/{"ret" if o[0] is None else "exc:" + o[0]}'] += 1
+        stats.outcomes[f'{part}:{refkind}/{mode}/{"ret" if o[0] is None else "exc:" + o[0]}'] += 1
     for v in verdicts:
         for d in v.defects:
             loc['defects'][d] += 1
@@ -273,15 +276,16 @@ def run_doc(A, seq, final_nl, stats, loc, seed):
         if ref.DVE in seq:
             loc['vs_dash'] += 1
     if (seq, final_nl) in SAMPLE_DOCS:
-        stats.sample({'part': 'A', 'classes': [ref.CLASS_NAMES[c] for c in seq], 'document': text,
+        stats.sample({'part': part, 'classes': [ref.CLASS_NAMES[c] for c in seq], 'document': text,
                       'reference': {'VS': 'valid signed', 'VU': 'valid unsigned', 'DC': 'DONT_CARE: ' + (dc or ''),
                                     'INV': 'invalid (%s) -> %s' % (','.join(sorted(set(v0.defects))), '/'.join(sorted(v0.allowed)))}[refkind],
                       'expected_entries': repr(v0.entries), 'text_for_verify_file': v0.text,
                       'observed': {m: ('ret' if obs[m][0] is None else obs[m][0]) + ' entries=%r verify_calls=%d' % (obs[m][1], len(obs[m][4]))
                                    for m in MODES}})
     for mode, sig, msg in viols:
-        stats.violation(sig, {'part': 'A', 'seed': seed, 'classes': list(seq), 'final_nl': final_nl,
+        stats.violation(sig, {'part': part, 'seed': seed, 'classes': list(seq), 'final_nl': final_nl,
                               'mode': mode, 'text': text}, msg)
+    return refkind, obs
 
 
 def a_docs(prefix, L):
@@ -294,11 +298,32 @@ def a_docs(prefix, L):
                 yield seq, False
 
 
+def _new_loc():
+    return {'docs': 0, 'nontrivial': 0, 'defects': collections.Counter(), 'fsm': set(),
+            'pairs': set(), 'refpos': set(), 'trace_missing': 0, 'vs_entries': 0, 'vs_dash': 0}
+
+
+def _emit(loc, stats, P):
+    c = stats.counters
+    c[P + '_documents'] += loc['docs']
+    c[P + '_documents_nontrivial'] += loc['nontrivial']
+    c[P + '_trace_missing'] += loc['trace_missing']
+    c[P + '_valid_signed_with_entries'] += loc['vs_entries']
+    c[P + '_valid_signed_with_dash_escaped_entry'] += loc['vs_dash']
+    for d, n in loc['defects'].items():
+        c[P + '_defect:' + d] += n
+    for st, cl, nxt in loc['fsm']:
+        c[f'{P}_fsm:{st}:{cl}:{nxt}'] += 1
+    for p, st in loc['pairs']:
+        c[f'{P}_pair:{p}:{st}'] += 1
+    for p, cl in loc['refpos']:
+        c[f'{P}_refpos:{p}:{cl}'] += 1
+
+
 def a_run(spec, tier, seed, stats):
     A = ref.alphabet(seed)
     L = tier_len(tier)
-    loc = {'docs': 0, 'nontrivial': 0, 'defects': collections.Counter(), 'fsm': set(),
-           'pairs': set(), 'refpos': set(), 'trace_missing': 0, 'vs_entries': 0, 'vs_dash': 0}
+    loc = _new_loc()
     if spec[1] == 'short':
         docs = [((), False)]
         for c in range(ref.NCLASS):
@@ -322,20 +347,7 @@ def a_run(spec, tier, seed, stats):
                                       'mode': mode, 'text': ''}, msg)
             continue
         run_doc(A, seq, final_nl, stats, loc, seed)
-    c = stats.counters
-    c['A_documents'] += loc['docs']
-    c['A_documents_nontrivial'] += loc['nontrivial']
-    c['A_trace_missing'] += loc['trace_missing']
-    c['A_valid_signed_with_entries'] += loc['vs_entries']
-    c['A_valid_signed_with_dash_escaped_entry'] += loc['vs_dash']
-    for d, n in loc['defects'].items():
-        c['A_defect:' + d] += n
-    for st, cl, nxt in loc['fsm']:
-        c[f'A_fsm:{st}:{cl}:{nxt}'] += 1
-    for p, st in loc['pairs']:
-        c[f'A_pair:{p}:{st}'] += 1
-    for p, cl in loc['refpos']:
-        c[f'A_refpos:{p}:{cl}'] += 1
+    _emit(loc, stats, 'A')
 
 
 def a_replay(case):
@@ -347,8 +359,130 @@ def a_replay(case):
         text = text[:-1]
     mode = case['mode']
     o = load_observe(io.StringIO(text), mode)
-    _v0, _dc, _vs, viols = judge_doc(A, seq, final_nl, {mode: o})
+    _v0, _dc, _vs, viols = judge_doc(A, seq, final_nl, {mode: o}, case['part'])
     return [{'sig': sig, 'case': case, 'message': msg} for _m, sig, msg in viols]
+
+
+# ====================================================================== Part T (two-message family)
+#
+#   document := FIRST SEP TAIL
+#   FIRST    := SB hdr BLANK body GB sig GE          a complete, well-formed signed block
+#                 (hdr, sig) in {(none, none)} quick, + {(hdr/b64, hdr/b64)} thorough
+#                 body in {nothing, blank, ws, entry, '- entry'}
+#   SEP      := nothing | blank  (| ws: thorough)
+#   TAIL     := nothing                                          (FIRST SEP alone: the accepted anchors)
+#             | c0 c1 .. ck-1, c0 non-blank, k <= F, over all 14 classes, with and without final newline
+#             | c0 c1 .. ck-1, c0 non-blank, F < k <= C, over the 7 core classes T_CORE, final newline
+#               (F, C) = (3, 5) quick, (4, 6) thorough
+#
+# TAIL therefore covers every complete second block with <= C-4 body/header/signature lines, every partial
+# second block, stray armor lines, entries, junk and any mix of them.  The first line of TAIL is non-blank
+# because blanks between the block and the tail are the SEP dimension; this makes (FIRST, SEP, TAIL) ->
+# text injective, so every document of the family is distinct by construction.  Judged by the same reference
+# acceptor and the same three load modes as Part A (a Manifest holds at most one signed block: whatever
+# non-blank follows the END line is unsigned data / misplaced armor).
+
+T_BODIES = ((), (ref.BL,), (ref.WS,), (ref.VE,), (ref.DVE,))
+T_CORE = (ref.SB, ref.GB, ref.GE, ref.BL, ref.HD, ref.VE, ref.DVE)
+T_BLANK = (ref.BL, ref.WS)
+T_NONBLANK = tuple(c for c in range(ref.NCLASS) if c not in T_BLANK)
+T_SAMPLE = ((ref.SB, ref.BL, ref.GB, ref.GE, ref.SB, ref.BL, ref.VE, ref.GB, ref.GE), True)
+SAMPLE_DOCS.add(T_SAMPLE)
+
+
+def t_bounds(tier):
+    """-> (forms, seps, F, C)"""
+    if tier == 'quick':
+        return (((), ()),), ((), (ref.BL,)), 3, 5
+    return (((), ()), ((ref.HD,), (ref.HD,))), ((), (ref.BL,), (ref.WS,)), 4, 6
+
+
+def t_prefixes(tier):
+    """-> [(first block classes, separator classes, body classes)]"""
+    forms, seps, _f, _c = t_bounds(tier)
+    out = []
+    for hdr, sig in forms:
+        for body in T_BODIES:
+            first = (ref.SB,) + hdr + (ref.BL,) + body + (ref.GB,) + sig + (ref.GE,)
+            for sep in seps:
+                out.append((first, sep, body))
+    return out
+
+
+def t_docs(prefix, c0, tier):
+    """All family documents (seq, final_nl) with the given FIRST/SEP whose TAIL starts with class c0
+    (plus, in the shard of the first non-blank class, the TAIL-less documents)."""
+    first, sep, _body = prefix
+    _forms, _seps, F, C = t_bounds(tier)
+    head = first + sep
+    if c0 == T_NONBLANK[0]:
+        yield head, True
+        if head[-1] != ref.BL:
+            yield head, False
+    for k in range(1, F + 1):
+        for rest in itertools.product(range(ref.NCLASS), repeat=k - 1):
+            seq = head + (c0,) + rest
+            yield seq, True
+            if seq[-1] != ref.BL:
+                yield seq, False
+    if c0 in T_CORE:
+        for k in range(F + 1, C + 1):
+            for rest in itertools.product(T_CORE, repeat=k - 1):
+                yield head + (c0,) + rest, True
+
+
+def t_expected(tier):
+    """Size of the stated space (closed form, independent of the generator)."""
+    _forms, _seps, F, C = t_bounds(tier)
+    nb = len(T_NONBLANK)
+    per = sum(2 * nb * ref.NCLASS ** (k - 1) for k in range(1, F + 1))
+    per -= sum(nb * ref.NCLASS ** (k - 2) for k in range(2, F + 1))         # unterminated '' last line
+    per += sum(len([c for c in T_CORE if c not in T_BLANK]) * len(T_CORE) ** (k - 1) for k in range(F + 1, C + 1))
+    total = 0
+    for _first, sep, _body in t_prefixes(tier):
+        total += per + (1 if sep == (ref.BL,) else 2)
+    return total
+
+
+def _block_shaped(tail):
+    """TAIL contains BEGIN-SIGNED .. BEGIN-SIGNATURE .. END-SIGNATURE in this order (exact lines)."""
+    try:
+        i = tail.index(ref.SB)
+        j = tail.index(ref.GB, i + 1)
+        tail.index(ref.GE, j + 1)
+    except ValueError:
+        return False
+    return True
+
+
+def t_run(spec, tier, seed, stats):
+    _t, pi, c0 = spec
+    A = ref.alphabet(seed)
+    L = tier_len(tier)
+    prefix = t_prefixes(tier)[pi]
+    first, sep, body = prefix
+    nh = len(first) + len(sep)
+    entryless = body not in ((ref.VE,), (ref.DVE,))
+    loc = _new_loc()
+    c = stats.counters
+    for seq, final_nl in t_docs(prefix, c0, tier):
+        refkind, obs = run_doc(A, seq, final_nl, stats, loc, seed, 'T')
+        if len(seq) <= L:
+            c['T_documents_also_in_part_A'] += 1
+        tail = seq[nh:]
+        if not tail:
+            c['T_first_block_alone'] += 1
+            if refkind == 'VS' and obs['ok'][0] is None:
+                c['T_first_block_alone_valid_and_accepted'] += 1
+        else:
+            c[f'T_tail_lines:{len(tail)}'] += 1
+            if _block_shaped(tail):
+                c['T_tail_with_second_block'] += 1
+                if entryless:
+                    c['T_tail_with_second_block_after_entryless_first'] += 1
+                if tail[-1] != ref.GE:
+                    c['T_tail_with_second_block_and_more'] += 1
+    _emit(loc, stats, 'T')
 
 
 # ====================================================================== Part B
@@ -659,36 +793,40 @@ def shards(tier, seed):
         raise RuntimeError('C04 setup() did not run')
     bs = b_shards(tier, B['bases'])
     first = [x for x in bs if x[1:3] in ((3, 'unesc'), (0, 'hdr'))]
-    return first + out + [x for x in bs if x not in first]
+    ts = [('T', pi, c0) for pi in range(len(t_prefixes(tier))) for c0 in T_NONBLANK]
+    first.append(ts[0])             # holds the written-out sample of the family
+    return first + out + ts[1:] + [x for x in bs if x not in first]
 
 
 def run_shard(spec, tier, seed, scratch):
     stats = Stats()
     if spec[0] == 'A':
         a_run(spec, tier, seed, stats)
+    elif spec[0] == 'T':
+        t_run(spec, tier, seed, stats)
     else:
         b_run(spec, tier, seed, stats)
     return stats
 
 
 def replay(case, scratch):
-    if case['part'] == 'A':
+    if case['part'] in ('A', 'T'):
         return a_replay(case)
     return b_replay(case, scratch)
 
 
-def _fsm_summary(counters):
+def _fsm_summary(counters, P='A'):
     trans = set()
     pairs = set()
     refpos = set()
     for k in counters:
-        if k.startswith('A_fsm:'):
+        if k.startswith(P + '_fsm:'):
             _p, st, cl, nxt = k.split(':')
             trans.add((int(st), int(cl), nxt))
-        elif k.startswith('A_pair:'):
+        elif k.startswith(P + '_pair:'):
             _p, pos, st = k.split(':')
             pairs.add((pos, int(st)))
-        elif k.startswith('A_refpos:'):
+        elif k.startswith(P + '_refpos:'):
             _p, pos, cl = k.split(':')
             refpos.add((pos, int(cl)))
     return trans, pairs, refpos
@@ -723,6 +861,36 @@ def finish(total, tier):
             errs.append(f'vacuity: only {len(sc)} of {5 * ref.NCLASS} implementation (state x line class) pairs exercised')
     if total.compared < total.evaluations // 3:
         errs.append('vacuity: most cases are DONT_CARE')
+    # ---- two-message family
+    want_t = t_expected(tier)
+    if c['T_documents'] != want_t:
+        errs.append(f'Part T enumerated {c["T_documents"]} documents, the stated space has {want_t}')
+    t_out = {k for k in total.outcomes if k.startswith('T:')}
+    if len({k.split('/', 1)[0] for k in t_out}) < 2 or len(t_out) < 4:
+        errs.append(f'vacuity: Part T produced the outcome classes {sorted(t_out)} only')
+    for mode in MODES:
+        if not total.outcomes.get(f'T:VS/{mode}/' + ('exc:OpenPGPVerificationFailure' if mode == 'raise' else 'ret')):
+            errs.append(f'vacuity: Part T: no first block on its own was valid and accepted in mode {mode}')
+        if not any(k.startswith(f'T:INV/{mode}/exc:') for k in t_out):
+            errs.append(f'vacuity: Part T: no document with content after the first block was rejected in mode {mode}')
+    # the newline-terminated minimal-form first blocks on their own are valid under every reading
+    n_alone = len(T_BODIES) * len(t_bounds(tier)[1])
+    if c.get('T_first_block_alone_valid_and_accepted', 0) < n_alone:
+        errs.append(f'vacuity: Part T: only {c.get("T_first_block_alone_valid_and_accepted")} first blocks on their own '
+                    f'were judged valid and accepted, expected at least {n_alone}')
+    for k in ('T_tail_with_second_block', 'T_tail_with_second_block_after_entryless_first',
+              'T_tail_with_second_block_and_more', 'T_defect:outside_armor', 'T_defect:outside_entry',
+              'T_defect:outside_junk'):
+        if not c.get(k):
+            errs.append(f'vacuity: counter {k} is zero')
+    t_trans, _tp, t_refpos = _fsm_summary(c, 'T')
+    post = {cl for p, cl in t_refpos if p == 'post'}
+    if post != set(range(ref.NCLASS)):
+        errs.append(f'vacuity: Part T: line classes after the first block exercised {sorted(post)}, not all {ref.NCLASS}')
+    if t_trans:     # tracing available: every non-blank class must have been fed right after a complete block
+        fed = {cl for s, cl, _n in t_trans if s == 4}
+        if not set(T_NONBLANK) <= fed:
+            errs.append(f'vacuity: Part T: only classes {sorted(fed)} were fed to the implementation after a complete block')
     if not c.get('B_accepted'):
         errs.append('vacuity: Part B has no mutant accepted by load')
     if not c.get('B_rejected'):
@@ -741,14 +909,31 @@ def extra_evidence(total, tier):
         nm = STATE_NAMES.get(s, str(s))
         tgt = STATE_NAMES.get(int(nxt), nxt) if nxt.isdigit() else nxt
         table.setdefault(nm, {}).setdefault(ref.CLASS_NAMES[cl], []).append(tgt)
-    slim = {k: v for k, v in c.items() if not k.startswith(('A_fsm:', 'A_pair:', 'A_refpos:'))}
+    slim = {k: v for k, v in c.items()
+            if not k.startswith(('A_fsm:', 'A_pair:', 'A_refpos:', 'T_fsm:', 'T_pair:', 'T_refpos:'))}
     nb = len(total.states)
+    t_trans, t_pairs, _tr = _fsm_summary(c, 'T')
+    t_new = c['T_documents'] - c['T_documents_also_in_part_A']
+    forms, seps, F, C = t_bounds(tier)
     return {
-        'states': c['A_documents'] + nb,
-        'distinct_nontrivial': c['A_documents_nontrivial'] + len(total.nontrivial),
-        'states_meaning': 'distinct documents: Part A (class sequence, final newline) enumerated once each by '
-                          'construction + Part B distinct mutated texts (hashed)',
+        'states': c['A_documents'] + t_new + nb,
+        'distinct_nontrivial': c['A_documents_nontrivial'] + t_new + len(total.nontrivial),
+        'states_meaning': 'distinct documents: Part A (class sequence, final newline) and Part T (first block, '
+                          'separator, tail, final newline) each enumerated once by construction, Part T documents of '
+                          '<= L lines (which Part A has too) subtracted + Part B distinct mutated texts (hashed)',
         'part_a_documents': c['A_documents'],
+        'part_t_documents': c['T_documents'],
+        'part_t_documents_not_in_part_a': t_new,
+        'part_t_bound': {'first_block_forms': len(forms), 'bodies': len(T_BODIES), 'separators': len(seps),
+                         'tail_lines_full_alphabet': F, 'tail_lines_core_alphabet': C,
+                         'core_alphabet': [ref.CLASS_NAMES[x] for x in T_CORE]},
+        'part_t_impl_fsm': {
+            'available': bool(t_trans),
+            'distinct_transitions': len(t_trans),
+            'classes_fed_in_POST_SIGNED_DATA': sorted(ref.CLASS_NAMES[cl] for s, cl, _n in t_trans if s == 4),
+            'transitions_out_of_POST_SIGNED_DATA': sorted({f'{ref.CLASS_NAMES[cl]}->{STATE_NAMES.get(int(n), n) if n.isdigit() else n}'
+                                                           for s, cl, n in t_trans if s == 4}),
+        },
         'part_b_distinct_texts': nb,
         'impl_fsm': {
             'available': bool(trans),
